@@ -392,6 +392,8 @@ func genC13(tier string, r *Rng, emit func(Case)) {
 		nconc = 400
 	}
 	genConcRootsOf(r, emit, nconc, "FromBigRat", 8)
+	// the digit lists are those given at the call: the caller reuses its slices afterwards
+	genAliasList(r, emit, nconc)
 	genC13Lists(tier, r, emit)
 	// the Number keeps the expansion of the value it was given, whatever the caller does with its big.Rat afterwards
 	na := 40
@@ -510,5 +512,5 @@ func init() {
 	register("C01", genRoots(sqrtCtors, 2), ops)
 	register("C02", genRoots(cubeCtors, 3), ops)
 	register("C03", genC03, ops)
-	register("C13", genC13, map[string]runner{"FromBigRat": runRoot, "Hist": runHist, "AliasCtor": runAliasCtor, "ConcRoots": runConcRoots})
+	register("C13", genC13, map[string]runner{"FromBigRat": runRoot, "Hist": runHist, "AliasCtor": runAliasCtor, "ConcRoots": runConcRoots, "AliasList": runAliasList})
 }
